@@ -119,8 +119,10 @@ def eval_pgpy(c, rec, cl):
     reg = region(text, cl)
     try:
         msg = pgpy.PGPMessage.new(text, cleartext=True)
-        for kid in c['signers']:
-            msg |= keypool.pgpy_key(keypool.ref_cert(kid, secret=True)).sign(msg, hash=HashAlgorithm(c['halg']))
+        # several signers use differing hash algorithms (signer i: the i-th algorithm after the drawn one)
+        hset = [sigkit.HASH_IDS[(sigkit.HASH_IDS.index(c['halg']) + i) % len(sigkit.HASH_IDS)] for i in range(len(c['signers']))]
+        for kid, h in zip(c['signers'], hset):
+            msg |= keypool.pgpy_key(keypool.ref_cert(kid, secret=True)).sign(msg, hash=HashAlgorithm(h))
         out = str(msg)
         sigs = sorted(bytes(s.__bytearray__()) for s in msg.signatures)
     except Exception as e:   # noqa
@@ -140,7 +142,7 @@ def eval_pgpy(c, rec, cl):
     if ref_text is not None:
         if 'lone-cr' not in cl and not same_text(ref_text, text):
             rec.finding('framework', 'dash-escape/' + reg, c, 'reference reader recovers %r, signed text was %r' % (ref_text[:60], text[:60]))
-        want_hashes = sorted({sigkit.HASHES[c['halg']]})
+        want_hashes = sorted({sigkit.HASHES[h] for h in hset})
         if sorted(blk.hash_headers) != want_hashes:
             rec.finding('framework', 'hash-header', c, '%r != %r' % (blk.hash_headers, want_hashes))
         if sorted(p.raw for p in wire.split_packets(blk.data)) != sigs and sorted(wire.build_packet(2, p.body) for p in wire.split_packets(blk.data)) != sigs:
@@ -174,6 +176,32 @@ def eval_pgpy(c, rec, cl):
                 rec.finding('roundtrip', 'no-longer-verifies/' + reg, c, kid)
     except Exception as e:   # noqa
         rec.finding('roundtrip', 'verify-exception/%s/%s' % (reg, harness.exc_key(e)), c, repr(e))
+        return
+    # ---- a further signer co-signs the message that was read back, with a hash algorithm not used so far
+    if 'lone-cr' in cl or len(text) % 2:
+        return
+    try:
+        other = [h for h in sigkit.HASH_IDS if h not in hset][len(text) % (len(sigkit.HASH_IDS) - len(set(hset)))]
+        kid2 = [k for k in SIGNERS if k not in c['signers']][len(text) % (len(SIGNERS) - len(c['signers']))]
+        back |= keypool.pgpy_key(keypool.ref_cert(kid2, secret=True)).sign(back, hash=HashAlgorithm(other))
+        blk2 = armor.read_blocks(str(back))[0]
+        rec.note('co-signed-after-reload')
+        missing = {sigkit.HASHES[h] for h in hset + [other]} - set(blk2.hash_headers)
+        if missing:
+            rec.finding('framework', 'hash-header-after-co-signing', c, 'Hash: header %r does not announce %r' % (blk2.hash_headers, sorted(missing)))
+        signed = armor.cleartext_signed_octets(blk2.cleartext)
+        npk = wire.split_packets(blk2.data)
+        if len(npk) != len(c['signers']) + 1:
+            rec.finding('framework', 'signature-count-after-co-signing', c, '%d' % len(npk))
+        for p in npk:
+            s_ = rsig.parse_sig_body(p.body)
+            pk = [keypool.ref_public(k) for k in c['signers'] + [kid2] if keypool.ref_public(k).keyid == rsig.issuer_keyid(s_)]
+            if not (pk and rsig.verify(s_, ('text', signed), pk[0])[0]):
+                rec.finding('conformance', 'reference-rejects-after-co-signing/' + reg, c, 'hash %d' % s_.halg)
+    except wire.WireError as e:
+        rec.finding('framework', 'reference-reader-rejects-after-co-signing/' + reg, c, str(e))
+    except Exception as e:   # noqa
+        rec.finding('sign', 'co-sign-exception/%s/%s' % (reg, harness.exc_key(e)), c, repr(e))
 
 
 def eval_ref(c, rec, cl):
